@@ -35,7 +35,7 @@ import (
 // it does not, the case is inconclusive, not a violation.  From then on the oracle is the one of every
 // restart: after the index is lost every acknowledged blob is stat-able, enumerated once, fetched intact.
 var multiBatchKinds = []string{
-	// a few preloaded meta blobs of 1,500-4,000 lines + real receives up to the 101st heap entry; the
+	// a few preloaded meta blobs of 1,100-5,000 lines + real receives up to the 101st heap entry; the
 	// receive-triggered compaction launches a packer and then finds exactly one more meta blob (put back)
 	"receive-triggered/few-medium-metas/one-left-over",
 	// 101 preloaded meta blobs (most ~100 lines, some ~500): the START-UP SCAN launches the compaction
@@ -86,23 +86,46 @@ func multiBatchShape(rng *rand.Rand, kind string, maxLines int) (sizes []int, re
 		sizes = sizes[:0]
 		switch kind {
 		case "receive-triggered/few-medium-metas/one-left-over", "receive-triggered/few-medium-metas/second-batch":
-			m := 4 + rng.Intn(5)
-			for i := 0; i < m; i++ {
-				sizes = append(sizes, 1500+rng.Intn(2501))
+			// `first` meta blobs that, with the single-line ones, just pass the limit; then `rest` larger ones
+			first, rest := 3+rng.Intn(6), 1
+			if maxLines < 15000 {
+				first = 6 + rng.Intn(3) // smaller parts, hence a smaller left-over
 			}
-			receives = heapLimit - m
+			if kind == "receive-triggered/few-medium-metas/second-batch" {
+				rest = 2 + rng.Intn(2)
+			}
+			receives = heapLimit - first - rest
+			sum := fullLines - receives + 1 + rng.Intn(250)
+			w, wsum := make([]float64, first), 0.0
+			for i := range w {
+				w[i] = 1 + rng.Float64()
+				wsum += w[i]
+			}
+			got, mx := 0, 0
+			for i := range w {
+				x := int(float64(sum) * w[i] / wsum)
+				if i == first-1 {
+					x = sum - got
+				}
+				got += x
+				mx = max(mx, x)
+				sizes = append(sizes, x)
+			}
+			for i := 0; i < rest; i++ {
+				sizes = append(sizes, mx+1+rng.Intn(400))
+			}
 		case "scan-triggered/101-medium-metas", "receive-triggered/100-medium-metas":
 			n := heapLimit
 			receives = 0
 			if kind == "receive-triggered/100-medium-metas" {
 				n, receives = heapLimit-1, 1
 			}
-			big := 8 + rng.Intn(10)
+			big := 6 + rng.Intn(10)
 			for i := 0; i < n; i++ {
 				if i < big {
 					sizes = append(sizes, 350+rng.Intn(400))
 				} else {
-					sizes = append(sizes, 60+rng.Intn(90))
+					sizes = append(sizes, 40+rng.Intn(70))
 				}
 			}
 		}
@@ -126,7 +149,7 @@ func multiBatchShape(rng *rand.Rand, kind string, maxLines int) (sizes []int, re
 			if len(packs) != 1 || leftover == 0 {
 				continue
 			}
-		case "receive-triggered/few-medium-metas/second-batch":
+		case "receive-triggered/few-medium-metas/second-batch", "scan-triggered/101-medium-metas":
 			if len(packs) < 2 {
 				continue
 			}
@@ -215,7 +238,7 @@ func (hs *history) preload(sizes []int) (pre []plain, metaSizes map[int]int, err
 
 // adopt makes the preloaded plaintexts acknowledged ones: each must be served by the current store
 // instance (created over the preloaded state).  false: the store does not accept the preloaded state.
-func (hs *history) adopt(pre []plain) bool {
+func (hs *history) adopt(pre []plain, fetchOneIn int) bool {
 	in, r := hs.in, hs.r
 	refs := make([]blob.Ref, len(pre))
 	for i, p := range pre {
@@ -237,11 +260,24 @@ func (hs *history) adopt(pre []plain) bool {
 		r.Inconclusive(fmt.Sprintf("%s: the store created over the preloaded state cannot stat the preloaded blobs: %v", hs.id, serr))
 		return false
 	}
+	if fetchOneIn > 1 {
+		hs.noFetch = map[blob.Ref]bool{}
+		for _, p := range pre {
+			if hs.rng.Intn(fetchOneIn) != 0 {
+				hs.noFetch[p.Ref] = true
+			}
+		}
+	}
 	for _, p := range pre {
 		size, ok := got[p.Ref]
 		var b []byte
 		var fsize uint32
 		var err error
+		if hs.noFetch[p.Ref] {
+			if ok && int(size) == len(p.Data) {
+				continue
+			}
+		}
 		if ok && int(size) == len(p.Data) {
 			if r.Guard("Fetch-of-preloaded", hs.rec, func() { b, fsize, err = fetchAll(in.S, p.Ref) }) {
 				return false
@@ -253,7 +289,8 @@ func (hs *history) adopt(pre []plain) bool {
 			return false
 		}
 	}
-	r.Eval(2 * len(pre))
+	r.Eval(2*len(pre) - len(hs.noFetch))
+	r.Count("preloaded_plaintexts_fetched_at_every_restart", len(pre)-len(hs.noFetch))
 	for _, p := range pre {
 		pi := len(hs.plains)
 		hs.plains = append(hs.plains, p)
@@ -298,7 +335,7 @@ func runMultiBatch(r *ev.Run, root string, c int) {
 	hs.tiny = true
 	in.sc = hs.sc
 	rng := hs.rng
-	sizes, receives, ok := multiBatchShape(rng, kind, r.Pick(13500, 17000))
+	sizes, receives, ok := multiBatchShape(rng, kind, r.Pick(13000, 17000))
 	if !ok {
 		r.Inconclusive(id + ": no preload shape found for " + kind)
 		return
@@ -352,7 +389,7 @@ func runMultiBatch(r *ev.Run, root string, c int) {
 	}
 	scanTriggered := receives == 0
 	ph("opened")
-	if !hs.adopt(pre) {
+	if !hs.adopt(pre, r.Pick(8, 1)) {
 		return
 	}
 	ph("adopted")
